@@ -126,8 +126,8 @@ func runC01(w *World, c *Check) {
 
 	// ---- rule 4: identity provenance -------------------------------------------
 	if sfa != nil {
-		crealmGuarded := vg != nil && len(vg["crealm-equal"]) > 0
-		cnameGuarded := vg != nil && len(vg["cname-equal"]) > 0
+		crealmGuarded := c.Held("C01.verify", "messages.(*APReq).Verify", "crealm-equal")
+		cnameGuarded := c.Held("C01.verify", "messages.(*APReq).Verify", "cname-equal")
 		sites := sfa.Calls(P("credentials.NewFromPrincipalName"))
 		if len(sites) == 0 {
 			// any other constructor of the returned credentials is unknown to the rule
